@@ -980,7 +980,9 @@ impl Run {
         let bytes = match mode {
             CloseMode::FlushAndCopy => {
                 self.pkg().flush().map_err(|e| io_fail(p, "Flush", &trace, e))?;
-                let b = self.buf.bytes(); // the medium at the instant flush returned
+                // the medium at the instant flush returned: only what the
+                // library pushed through the medium's own flush() is durable
+                let b = self.buf.durable_bytes();
                 self.pkg = None;
                 b
             }
